@@ -651,7 +651,7 @@ class FieldWrapper(Wrapper):
             dashes.extend(additional_dashes)
 
         # remove duplicates by creating a set.
-        option_strings = {f"{dash}{option}" for dash, option in zip(dashes, options)}
+        option_strings = dict.fromkeys(f"{dash}{option}" for dash, option in zip(dashes, options))
         # TODO: possibly sort the option strings, if argparse doesn't do it
         # already.
         return list(sorted(option_strings, key=len))
